@@ -17,7 +17,7 @@ namespace detail
 template <endianness E, typename T>
 inline void encode_int(uint8_t* out, const T& in)
 {
-    *reinterpret_cast<T*>(out) = in;
+    memcpy(out, &in, sizeof(T));  /// native order: the bytes as they are (no typed store: alignment, signalling NaNs)
 }
 
 template <>
